@@ -128,3 +128,26 @@ Theorem cancelled_is_sticky :
     (forall c, cache i = Some c -> poison stack cache i = Some c).
 Proof. intros stack cache i. exact (conj (poison_sticky stack cache i) (fun c => poison_keeps_done stack cache i c)). Qed.
 Print Assumptions cancelled_is_sticky.
+
+(* ToLeafNode's cancel branch, with denotations.  With the guard `if (!frame->op_node->cache_)` (generated obligation
+   poison_guarded = true, read from the source) an op node that was evaluated before -- alone, through another handle,
+   or earlier in this evaluation -- and whose frame is still on the stack keeps its result through a cancelled evaluation;
+   every unevaluated node on the stack and the root answer Cancelled from then on. *)
+Theorem cancel_preserves_evaluated :
+  forall (stack : list nat) (root : nat) (cache : nat -> option cval) (i : nat) (v : cval),
+    cache root = None -> cache i = Some v -> cancel_branch true stack root cache i = Some v.
+Proof. exact cancel_preserves_evaluated_lemma. Qed.
+Print Assumptions cancel_preserves_evaluated.
+
+Theorem cancel_poisons_unevaluated :
+  forall (g : bool) (stack : list nat) (root : nat) (cache : nat -> option cval) (i : nat),
+    (i = root \/ In i stack) -> cache i = None -> cancel_branch g stack root cache i = Some VCancelled.
+Proof. exact cancel_poisons_unevaluated_lemma. Qed.
+Print Assumptions cancel_poisons_unevaluated.
+
+(* Without the guard a finished result on the stack is overwritten by the Cancelled leaf. *)
+Theorem cancel_unguarded_overwrites :
+  exists stack root cache i r, cache root = None /\ cache i = Some (VRes r) /\
+    cancel_branch false stack root cache i = Some VCancelled.
+Proof. exact cancel_unguarded_overwrites_lemma. Qed.
+Print Assumptions cancel_unguarded_overwrites.
